@@ -174,7 +174,7 @@ def select(rows, model, head, git_mode):
 
 def gen_case(rng):
     git_mode = rng.choice(["git"] * 8 + ["nogit", "disabled", "nocommit"])
-    c = {"seed": rng.randrange(1 << 30), "git_mode": git_mode, "ncommits": rng.randint(1, 12), "nobs": rng.randint(3, 7)}
+    c = {"seed": rng.randrange(1 << 30), "git_mode": git_mode, "ncommits": rng.randint(1, 12), "nobs": rng.randint(3, 7), "hostile": realrun.hostile_choice(rng)}
     if git_mode == "git" and rng.random() < 0.2:
         c.update(shape="unequal-merge", side_len=rng.randint(1, 4), main_len=rng.randint(1, 3), merge_into_side=rng.random() < 0.5)
     return c
@@ -193,7 +193,7 @@ def eval_case(case):
         tasks = [gen.mk_task("", "e1", "run_experiment"), gen.mk_task("x", "e2", "run_experiment", ["//:e1"]), gen.mk_task("", "c", "run_command", ["//x:e2", "//:e1"])]
         scripts = {t["id"]: {"steps": [["file", "o.txt", realrun.b64(b"x")]]} for t in tasks}
         gm = case["git_mode"]
-        pr = realrun.Project(sc.root, tasks, scripts, disable_git=(gm == "disabled"))
+        pr = realrun.Project(sc.root, tasks, scripts, disable_git=(gm == "disabled"), hostile=case.get("hostile"))
         root = pr.root
         model = None
         shape_tips = None
